@@ -396,6 +396,18 @@ def _modellist(case, ctx, g):
         for o, mdl in zip(eouts, models):
             own = mdl(xs)
             ctx.expect("model_list_identical", torch.equal(o.mean, own.mean) and torch.equal(o.covariance_matrix, own.covariance_matrix), "IndependentModelList eval output differs from the member's own output")
+        # the list's likelihood applies each member likelihood to its own output with its own arguments: fixed-noise
+        # members with per-member call-time noise, None = that member's stored noise (no argument leaks to a neighbour)
+        k = len(models)
+        fls = [gpytorch.likelihoods.FixedNoiseGaussianLikelihood(noise=util.rand(g, 3) * 0.3 + 0.05, learn_additional_noise=(i % 2 == 1)) for i in range(k)]
+        ll = gpytorch.likelihoods.LikelihoodList(*fls)
+        for none_at in ([], [k - 1], [0], list(range(1, k))):
+            nz = [None if i in none_at else util.rand(g, 3) * 0.3 + 0.05 for i in range(k)]
+            got = ll(*eouts, noise=nz) if any(n_ is not None for n_ in nz) else ll(*eouts)
+            for i, (o, fl, n_, gi) in enumerate(zip(eouts, fls, nz, got)):
+                own = fl(o, noise=n_) if n_ is not None else fl(o)
+                ctx.expect("likelihood_list_memberwise", bool(torch.equal(gi.mean, own.mean)) and bool(torch.allclose(gi.covariance_matrix, own.covariance_matrix, rtol=0, atol=1e-12)),
+                           f"LikelihoodList member {i} (noise list with None at {none_at}) differs from the member likelihood applied on its own", member=i, none_at=none_at)
     ctx.cell({k: v for k, v in case.items() if k != "seed"})
 
 
